@@ -1001,7 +1001,9 @@ class MBXML:
         body = b""
         if doc.is_constant_table_inherited:
             body += cls.write_uintvar(1)
-        elif not doc.is_constant_table_default:
+        elif not doc.is_constant_table_default or not doc.id.value[1]:
+            # document ids with a constant table always carry CDT_LEN, also for an
+            # empty table of a document that was assembled by hand
             body += cls.write_uintvar(len(doc.constants_table)) + doc.constants_table
 
         for part in doc.parts:
